@@ -193,9 +193,23 @@ Definition dec_cblob (bs : list Z) : option (option (list Z) * list Z) :=
   end.
 
 (* ---------------------------------------------------------------- TaggedFields *)
+(* encode: ret = uvarint(len(value)); for k, v in sorted(value.items()): uvarint(k) uvarint(len(v)) v.
+   The dict is its item list in iteration order (distinct keys); sorted() orders by tag. *)
+Fixpoint ins_tag (kv : Z * list Z) (l : list (Z * list Z)) : list (Z * list Z) :=
+  match l with
+  | [] => [kv]
+  | x :: r => if fst kv <=? fst x then kv :: l else x :: ins_tag kv r
+  end.
+
+Fixpoint sort_tags (l : list (Z * list Z)) : list (Z * list Z) :=
+  match l with
+  | [] => []
+  | x :: r => ins_tag x (sort_tags r)
+  end.
+
 Definition enc_tagged (l : list (Z * list Z)) : list Z :=
   enc_uvarint (blen l) ++
-  flat_map (fun kv => enc_uvarint (fst kv) ++ enc_uvarint (blen (snd kv)) ++ snd kv) l.
+  flat_map (fun kv => enc_uvarint (fst kv) ++ enc_uvarint (blen (snd kv)) ++ snd kv) (sort_tags l).
 
 (* the decoder does not check for a short read of the field body: data.read(size) *)
 Fixpoint dec_tagged_loop (n : nat) (prev : Z) (bs : list Z) : option (list (Z * list Z) * list Z) :=
@@ -384,11 +398,12 @@ Fixpoint wt_tagged (prev : Z) (l : list (Z * list Z)) : bool :=
                     && wt_tagged k l'
   end.
 
-(* Domain of each wire type.  Two stated exclusions, both about values the real encoder
-   does not handle (see props/C11.v, c11_varint32_refuted / c11_varint64_refuted and
-   the c11_tagged examples): VarInt32 is restricted to 0 <= z < 2^31 and VarInt64 to 0 <= z < 64 (no
-   struct uses either type); TaggedFields requires tags > 0 in strictly increasing
-   iteration order (encode asserts k > 0 and does not sort; decode demands ascending tags). *)
+(* Domain of each wire type: the canonical values.  Stated restrictions: VarInt32 is
+   restricted to 0 <= z < 2^31 and VarInt64 to 0 <= z < 64, because the real encoders are
+   wrong beyond (no struct uses either type; props/C11.v c11_varint32_refuted /
+   c11_varint64_refuted); a TaggedFields value lists its tags (>= 0) in strictly increasing
+   order — the form decode returns.  Dicts in any other iteration order are covered by
+   [wtu] / [vnorm] below: they encode like, and decode to, their sorted form. *)
 Fixpoint wt (t : ty) (v : val) : bool :=
   match t, v with
   | TInt8, VInt z => in_range (-128) 128 z
@@ -405,7 +420,7 @@ Fixpoint wt (t : ty) (v : val) : bool :=
   | TVarInt64, VInt z => in_range 0 64 z
   | TCompactString, VStr o => wt_blob 4294967294 o
   | TCompactBytes, VBytes o => wt_blob 4294967294 o
-  | TTagged, VTagged l => (blen l <? 4294967296) && wt_tagged 0 l
+  | TTagged, VTagged l => (blen l <? 4294967296) && wt_tagged (-1) l
   | TArray t', VArr None => true
   | TArray t', VArr (Some l) => (blen l <=? 2147483647) && forallb (wt t') l
   | TCompactArray t', VArr None => true
@@ -418,6 +433,43 @@ Fixpoint wt (t : ty) (v : val) : bool :=
          | _, _ => false
          end) fs l
   | _, _ => false
+  end.
+
+(* ---------------------------------------------------------------- dicts in any order *)
+(* tags distinct, each inside 0 .. 2^32-1, bodies well formed *)
+Fixpoint wtu_tagged (l : list (Z * list Z)) : bool :=
+  match l with
+  | [] => true
+  | (k, b) :: l' => in_range 0 4294967296 k && wf_bytes b && (blen b <? 4294967296)
+                    && negb (existsb (fun kv => fst kv =? k) l') && wtu_tagged l'
+  end.
+
+(* [wt] with TaggedFields values in arbitrary iteration order *)
+Fixpoint wtu (t : ty) (v : val) : bool :=
+  match t, v with
+  | TTagged, VTagged l => (blen l <? 4294967296) && wtu_tagged l
+  | TArray t', VArr None => true
+  | TArray t', VArr (Some l) => (blen l <=? 2147483647) && forallb (wtu t') l
+  | TCompactArray t', VArr None => true
+  | TCompactArray t', VArr (Some l) => (blen l <=? 4294967294) && forallb (wtu t') l
+  | TSchema fs, VTup l =>
+      (fix go (fs : list ty) (l : list val) {struct fs} : bool :=
+         match fs, l with
+         | [], [] => true
+         | f :: fs', x :: l' => wtu f x && go fs' l'
+         | _, _ => false
+         end) fs l
+  | TArray _, _ | TCompactArray _, _ | TSchema _, _ | TTagged, _ => false
+  | _, _ => wt t v
+  end.
+
+(* the value with every dict put in ascending tag order: the same finite maps *)
+Fixpoint vnorm (v : val) : val :=
+  match v with
+  | VTagged l => VTagged (sort_tags l)
+  | VArr (Some l) => VArr (Some (map vnorm l))
+  | VTup l => VTup (map vnorm l)
+  | other => other
   end.
 
 (* ---------------------------------------------------------------- boolean equality on types *)
